@@ -64,3 +64,65 @@ func VerifH_sched_selftest() {
 		vfCover("no-lost-update")
 	}
 }
+
+func init() {
+	vfHarnesses["VerifH_race_selftest_clean"] = VerifH_race_selftest_clean
+	vfHarnesses["VerifH_race_selftest_racy"] = VerifH_race_selftest_racy
+}
+
+// VerifH_race_selftest_clean: accesses ordered by a mutex, a channel, a WaitGroup and an atomic flag
+// must NOT be reported by the engine's race detector.
+func VerifH_race_selftest_clean() {
+	vfRaceDetect()
+	var mu sync.Mutex
+	var wg sync.WaitGroup
+	shared := 0
+	for i := 0; i < 2; i++ {
+		wg.Add(1)
+		go func() {
+			defer wg.Done()
+			mu.Lock()
+			shared++
+			mu.Unlock()
+		}()
+	}
+	wg.Wait()
+	vfCheck(shared == 2, "counter")
+	data := 0
+	ch := make(chan struct{})
+	go func() {
+		data = 7
+		close(ch)
+	}()
+	<-ch
+	vfCheck(data == 7, "channel does not order the write")
+	var flag atomic.Bool
+	payload := 0
+	done := make(chan struct{})
+	go func() {
+		payload = 9
+		flag.Store(true)
+		close(done)
+	}()
+	if flag.Load() {
+		vfCheck(payload == 9, "atomic flag does not order the write")
+	}
+	<-done
+	vfCover("clean")
+}
+
+// VerifH_race_selftest_racy: two goroutines increment a plain variable; the detector must report it.
+func VerifH_race_selftest_racy() {
+	vfRaceDetect()
+	var wg sync.WaitGroup
+	x := 0
+	for i := 0; i < 2; i++ {
+		wg.Add(1)
+		go func() {
+			defer wg.Done()
+			x++
+		}()
+	}
+	wg.Wait()
+	_ = x
+}
